@@ -5,7 +5,7 @@
 From Coq Require Import NArith Bool List Lia.
 From RS.Gen Require Import Prelude GenConsts.
 From RS.Model Require Import Field Tables Sched Kernels Spec.
-From RS.Proofs Require Import FieldFacts Ring FftSpec.
+From RS.Proofs Require Import FieldFacts Ring FftSpec SchedEquiv.
 Import ListNotations.
 Local Open Scope N_scope.
 
@@ -122,6 +122,27 @@ Theorem C15_fft : forall k q c, (k <= 16)%nat ->
   nth i (fft sym_ops Naive size size sd c) 0 = lch k c (sd + N.of_nat i).
 Proof. exact naive_fft_spec. Qed.
 Print Assumptions C15_fft.
+
+(* ... and for every engine (the two-layer schedule computes what the one-layer schedule
+   computes when the transform is not truncated: SchedEquiv) *)
+Theorem C15_fft_all_engines : forall e k q c, (k <= 16)%nat ->
+  let size := 2 ^ N.of_nat k in let sd := q * size in
+  sd + size <= 65536 -> length c = Nat.pow 2 k -> Forall (fun x => x < 65536) c ->
+  forall i, (i < Nat.pow 2 k)%nat ->
+  nth i (fft sym_ops e size size sd c) 0 = lch k c (sd + N.of_nat i).
+Proof.
+  intros e k q c Hk size sd Hb Hc Wc i Hi. subst size sd.
+  rewrite fft_engines_agree; [apply naive_fft_spec; assumption|exact Hk|].
+  rewrite Hc, Nat2N.inj_pow. reflexivity.
+Qed.
+Print Assumptions C15_fft_all_engines.
+
+(* ifft is the exact inverse of fft: every engine, every size 2^k <= 2^16, every skew_delta,
+   every input *)
+Theorem C15_ifft_inverse : forall e k sd l, (k <= 16)%nat -> N.of_nat (length l) = 2 ^ N.of_nat k ->
+  ifft sym_ops e (2 ^ N.of_nat k) (2 ^ N.of_nat k) sd (fft sym_ops e (2 ^ N.of_nat k) (2 ^ N.of_nat k) sd l) = l.
+Proof. exact ifft_fft_inverse. Qed.
+Print Assumptions C15_ifft_inverse.
 
 (* the field laws the specification rests on, for the table-based product on 16-bit symbols *)
 Theorem C15_field_laws : forall a b c, a < 65536 -> b < 65536 -> c < 65536 ->
